@@ -5,11 +5,11 @@ from . import base, c19
 ID = 'C14'
 LEVEL = 'exploration'
 PLAN = {
-    'quick': [('synth_pipe', 6000), ('shipped_pipe', 480)],
-    'thorough': [('synth_pipe', 250000), ('shipped_pipe', 20000)],
+    'quick': [('synth_pipe', 6000), ('synth_twice', 6000), ('shipped_pipe', 480)],
+    'thorough': [('synth_pipe', 250000), ('synth_twice', 200000), ('shipped_pipe', 20000)],
 }
 DEADLINE = {'quick': 220, 'thorough': 3300}
-PROBES = ['enum-value-read-back', 'blank-read-back', 'float-read-back', 'relayout-between-steps', 'filler-values-compared']
+PROBES = ['second-solve-on-same-solver', 'enum-value-read-back', 'blank-read-back', 'float-read-back', 'relayout-between-steps', 'filler-values-compared']
 ASSUMPTIONS = [
     'values explored are those a solve can produce (they entered through configparser already); multi-line text cannot be typed at a prompt',
     'the typed store of the solve is taken from the event log (what each line evaluation returned)',
@@ -39,7 +39,37 @@ def evaluate(case, engine, acc=None):
     return fs
 
 
+def eval_twice(case, acc=None):
+    """solve(), look at solution(), solve() again for one more form on the same Solver: what solution() hands out then
+    must be the text form of everything that was solved"""
+    from .. import gen
+    run = simrun.execute(case, again=case['again'], again_always=True)
+    r1 = simrun.model_for(case, run)
+    fs = [dict(f, property=ID) for f in simrun.judge_common(run, r1) if f['oracle'] == 'C14.solution']
+    if acc is not None:
+        acc.steps += run.rec.attempts + run.rec.prompts
+        acc.count(f'outcome:twice-{run.outcome}')
+        acc.count('probe:second-solve-on-same-solver')
+        if run.outcome != 'abort':
+            acc.add('nontrivial', core.digest_int(['twice', case['world'], case['again']]))
+    return fs
+
+
 def run_one(engine, seed, acc, tier):
+    if engine == 'synth_twice':
+        from .. import gen
+        rng = core.Rng(core.h64('c14twice', seed))
+        case = gen.gen_case(seed, clean=rng.chance(0.7))
+        case['prompt'] = True
+        case['refuse_at'] = None
+        others = [f for f in case['world']['forms'] if f['name'] not in [r.split(':')[0] for r in case['requested']]]
+        case['again'] = []
+        if others:
+            o = rng.pick(others)
+            case['again'] = [f"{o['name']}:{rng.pick(['0', '1', '2'])}" if o['multi'] else o['name']]
+        for f in eval_twice(case, acc):
+            acc.violation(base.violation(ID, f, case, seed, engine))
+        return
     case = c19.make_case(engine, seed, tight=False)
     # a two-solution history in one process (state kept between read-backs, e.g. a cache, shows only then);
     # the prelude is explicit in the case so that a replay in a fresh process reproduces it
@@ -90,6 +120,8 @@ def _eval_with_prelude(case, engine):
 
 
 def replay(rec):
+    if rec.get('engine') == 'synth_twice':
+        return eval_twice(rec['case'])
     return _eval_with_prelude(rec['case'], rec.get('engine'))
 
 
@@ -97,6 +129,8 @@ _min_synth = base.make_minimiser(lambda c, e: _eval_with_prelude(c, e))
 
 
 def minimise(v):
+    if v.get('engine') == 'synth_twice':
+        return v
     if v.get('engine', '').startswith('synth'):
         return _min_synth(v)
     return c19.shipped_min(v, ID)
